@@ -284,6 +284,18 @@ pub fn run(tier: Tier) -> i32 {
             trees.push(vec![Entry::Dir { name: "d0".into(), children: vec![raw(nm, c), fe(b)] }, fe(a)]);
         }
     }
+    // "whatever position the file has in its directory", "whichever other files": a directory of 65 / 70 / 257 files (every file of the
+    // alphabet many times under different names), sibling names that differ only in how a number is written, test files next
+    // to each other around an ordinary file
+    {
+        let named = |name: String, i: usize| Entry::File { name, content: fs[i % n].1.as_bytes().to_vec() };
+        for width in [65usize, 70, 257] {
+            trees.push((0..width).map(|k| named(format!("W{:03}.sol", k), k)).collect());
+        }
+        trees.push(vec![named("Vault1.sol".into(), 0), named("Vault01.sol".into(), 1), named("Token7.sol".into(), 2), named("Token007.sol".into(), 3)]);
+        trees.push(vec![named("A.t.sol".into(), 0), named("B.t.sol".into(), 1), named("C.sol".into(), 2)]);
+        trees.push(vec![named("A.t.sol".into(), 1), named("B.t.sol".into(), 0)]);
+    }
     use solstat::analyzer::optimizations as opt;
     use solstat::analyzer::qa;
     use solstat::analyzer::vulnerabilities as vul;
